@@ -53,8 +53,8 @@ func runHS(c io.ReadWriteCloser, k crypto.PrivKey) chan hsResult {
 	return ch
 }
 
-func makePair(k int, seed uint32, keep bool) (*scPair, string) {
-	ea, eb, ab, ba := duplex(k, seed, keep)
+func makePair(k int, seed uint32, keep, join bool) (*scPair, string) {
+	ea, eb, ab, ba := duplex(k, seed, keep, join)
 	p := &scPair{ea: ea, eb: eb, ab: ab, ba: ba, ka: crypto.GenPrivKeyEd25519(), kb: crypto.GenPrivKeyEd25519()}
 	ca, cb := runHS(ea, p.ka), runHS(eb, p.kb)
 	to := time.After(5 * time.Second)
@@ -160,7 +160,7 @@ func (e *exec) streamOp(toks []string) string {
 		k, _ := hx.Arg(toks, "k")
 		s, _ := hx.Arg(toks, "seed")
 		e.closeAll()
-		p, res := makePair(atoi(k), uint32(atoi(s)), true)
+		p, res := makePair(atoi(k), uint32(atoi(s)), true, argS(toks, "j") == "1")
 		if p == nil {
 			return res
 		}
